@@ -9,12 +9,22 @@
      stream (with Props/C01.v: delivered, each once, in order);
    - C07_nothing_pending_without_senders: with no sender handle alive every claimed position is published (no
      send is between claiming and publishing), so a consumer never waits for a value that will not come.
-   The last two are over [mreachN] (every execution without the publishing step of known finding F11) with fewer
-   than 2^62 handles and claimed values.  Not proved: that every blocked or parked consumer is woken when the
-   last sender goes (C08/C14). *)
+   - C07_nothing_is_claimed_without_senders: with no sender handle alive no step claims a position: the head
+     counter, the claim log and the zero writers count stay as they are;
+   - C07_end_is_stable: with no sender handle alive a registered stream whose cursor equals the head counter keeps
+     cursor = head across every step of any agent - a drained stream stays drained, the end once reached is
+     reached for good (the Stream's None is stable, C15);
+   - C07_drained_attempt_reports_end: on such a stream every own step of a receive attempt that has loaded the
+     cursor moves strictly down the chain tag test -> writers test -> second tag test -> position re-check without
+     touching shared memory, and the last step sets the result to "disconnected": the attempt reports the end
+     within four own steps whatever the other agents do in between (their steps keep the state drained).
+   All but the counter facts are over [mreachN] (every execution without the publishing step of known finding F11)
+   with fewer than 2^62 handles and claimed values.  That a blocked or parked consumer is woken when the last
+   sender goes is Props/C08.v (blocking wait) and Props/C14.v (parked stream task): the wait condition holds as
+   soon as the writers count is zero. *)
 From Coq Require Import NArith List Bool.
 Require Import MQ.Arith64 MQ.Arith64Facts MQ.Types MQ.State MQ.Model MQ.Exec MQ.Reach MQ.Ctl MQ.Count MQ.WritersStep MQ.InvWriters MQ.InvMisc
-  MQ.RecvDefs MQ.InvReg MQ.WinStep MQ.WinDefs MQ.InvWin MQ.WinRun MQ.SlotDefs MQ.InvSlot MQ.InvPub MQ.SlotStepH MQ.SlotStepI MQ.InvEnd.
+  MQ.RecvDefs MQ.InvReg MQ.WinStep MQ.WinDefs MQ.InvWin MQ.WinRun MQ.SlotDefs MQ.InvSlot MQ.InvPub MQ.SlotStepH MQ.SlotStepI MQ.InvEnd MQ.EndStep MQ.EndStable.
 Import ListNotations.
 Open Scope N_scope.
 
@@ -105,4 +115,70 @@ Proof.
   exists s, X, o. split; [eapply m_run_sound; [apply mrn_init|exact E]|].
   vm_compute in E. injection E as <-. vm_compute in EX. injection EX as <-. vm_compute in EM. injection EM as <-.
   vm_compute. repeat split; intros Y; discriminate Y.
+Qed.
+
+(* ---- after the last sender: nothing is claimed, a drained stream stays drained, an attempt reports the end ---- *)
+Theorem C07_nothing_is_claimed_without_senders : forall c fut s x X o,
+  mreach c fut s -> lenN (ags s) < B62 -> get (ags s) x = Some X -> micro c x X (sh s) = Some o ->
+  writers (sh s) = 0 ->
+  writers (o_s o) = 0 /\ head (o_s o) = head (sh s) /\ g_log (o_s o) = g_log (sh s).
+Proof. exact no_claim_without_senders. Qed.
+Check C07_nothing_is_claimed_without_senders : forall c fut s x X o,
+  mreach c fut s -> lenN (ags s) < B62 -> get (ags s) x = Some X -> micro c x X (sh s) = Some o ->
+  writers (sh s) = 0 ->
+  writers (o_s o) = 0 /\ head (o_s o) = head (sh s) /\ g_log (o_s o) = g_log (sh s).
+Print Assumptions C07_nothing_is_claimed_without_senders.
+
+Theorem C07_end_is_stable : forall c fut s x X o sg,
+  0 < c_n c -> c_n c <= B61 -> mreachN c fut s ->
+  lenN (ags (apply1 s x o)) < B62 -> lenN (g_log (sh s)) < B62 ->
+  get (ags s) x = Some X -> (is_local (a_pc X) = true \/ enabled x X (sh s) = true) ->
+  micro c x X (sh s) = Some o -> new_ok s x o = true -> ~ f11_bad (sh s) X ->
+  writers (sh s) = 0 -> gpos (sh s) sg = head (sh s) -> In sg (streams (o_s o)) ->
+  writers (o_s o) = 0 /\ head (o_s o) = head (sh s) /\ g_log (o_s o) = g_log (sh s) /\ gpos (o_s o) sg = head (o_s o).
+Proof. exact end_state_stable. Qed.
+Check C07_end_is_stable : forall c fut s x X o sg,
+  0 < c_n c -> c_n c <= B61 -> mreachN c fut s ->
+  lenN (ags (apply1 s x o)) < B62 -> lenN (g_log (sh s)) < B62 ->
+  get (ags s) x = Some X -> (is_local (a_pc X) = true \/ enabled x X (sh s) = true) ->
+  micro c x X (sh s) = Some o -> new_ok s x o = true -> ~ f11_bad (sh s) X ->
+  writers (sh s) = 0 -> gpos (sh s) sg = head (sh s) -> In sg (streams (o_s o)) ->
+  writers (o_s o) = 0 /\ head (o_s o) = head (sh s) /\ g_log (o_s o) = g_log (sh s) /\ gpos (o_s o) sg = head (o_s o).
+Print Assumptions C07_end_is_stable.
+
+Theorem C07_drained_attempt_reports_end : forall c fut s x X o,
+  0 < c_n c -> c_n c <= B61 -> mreachN c fut s -> lenN (ags s) < B62 -> lenN (g_log (sh s)) < B62 ->
+  get (ags s) x = Some X -> micro c x X (sh s) = Some o ->
+  writers (sh s) = 0 -> 0 < end_rank (a_pc X) ->
+  r_p (a_r X) = head (sh s) -> gpos (sh s) (a_sid X) = head (sh s) ->
+  r_res (a_r (o_a o)) = RDiscon \/
+  (0 < end_rank (a_pc (o_a o)) /\ end_rank (a_pc (o_a o)) < end_rank (a_pc X) /\
+   r_p (a_r (o_a o)) = r_p (a_r X) /\ a_sid (o_a o) = a_sid X /\ a_stack (o_a o) = a_stack X /\ o_s o = sh s).
+Proof. exact end_attempt_reports_end. Qed.
+Check C07_drained_attempt_reports_end : forall c fut s x X o,
+  0 < c_n c -> c_n c <= B61 -> mreachN c fut s -> lenN (ags s) < B62 -> lenN (g_log (sh s)) < B62 ->
+  get (ags s) x = Some X -> micro c x X (sh s) = Some o ->
+  writers (sh s) = 0 -> 0 < end_rank (a_pc X) ->
+  r_p (a_r X) = head (sh s) -> gpos (sh s) (a_sid X) = head (sh s) ->
+  r_res (a_r (o_a o)) = RDiscon \/
+  (0 < end_rank (a_pc (o_a o)) /\ end_rank (a_pc (o_a o)) < end_rank (a_pc X) /\
+   r_p (a_r (o_a o)) = r_p (a_r X) /\ a_sid (o_a o) = a_sid X /\ a_stack (o_a o) = a_stack X /\ o_s o = sh s).
+Print Assumptions C07_drained_attempt_reports_end.
+
+(* non-vacuity: one value sent and received, the sender dropped; the receiver's next attempt has loaded the cursor
+   (= head = 1) and is at the tag test *)
+Example C07_drained_attempt_witness :
+  let c := mk_cfg MPMC 2 WBusy in
+  exists s X, mreachN c false s /\ lenN (ags s) < B62 /\ lenN (g_log (sh s)) < B62 /\
+    get (ags s) 1 = Some X /\ a_pc X = R4 /\ end_rank (a_pc X) = 4 /\ writers (sh s) = 0 /\
+    r_p (a_r X) = head (sh s) /\ gpos (sh s) (a_sid X) = head (sh s) /\ head (sh s) = 1 /\ In (a_sid X) (streams (sh s)).
+Proof.
+  cbv zeta.
+  destruct (m_run true (mk_cfg MPMC 2 WBusy) (init false)
+              [MCall 0 (CTrySend 7) 100; MCall 1 CTryRecv 100; MBegin 0 CDrop; MSteps 0 12; MBegin 1 CTryRecv; MSteps 1 5])
+    as [s|] eqn:E; [|vm_compute in E; discriminate E].
+  destruct (get (ags s) 1) as [X|] eqn:EX; [|vm_compute in E; injection E as <-; vm_compute in EX; discriminate EX].
+  exists s, X. split; [eapply m_run_sound; [apply mrn_init|exact E]|].
+  vm_compute in E. injection E as <-. vm_compute in EX. injection EX as <-.
+  vm_compute. repeat split; try (intros Y; discriminate Y). left. reflexivity.
 Qed.
